@@ -3,7 +3,7 @@ import ast
 import z3
 
 from .values import *  # noqa
-from .lib import (SArr, SList, SMutList, SRandomState, as_array, elementwise, map_array, arr_sum, arr_all,
+from .lib import (SArr, SList, SMutList, SRowList, SRandomState, as_array, elementwise, map_array, arr_sum, arr_all,
                   arr_any, arr_min, reshape, ravel, np_append, np_insert, np_zeros, np_eye, dot, transpose,
                   apply_elementwise, real_fn, uf, fresh_array, dim_eq, partial_sum, broadcast_shapes)
 
